@@ -22,8 +22,8 @@ COMPONENTS = {"schemas": {
     "Out": {"type": "object", "required": ["v"], "properties": {"v": {"type": "integer"}}}}}
 SERVED = {"model": ("application/json", json.dumps({"v": 1}).encode()), "text": ("text/plain", b"hello"), "none": (None, b""),
           "list": ("application/problem+json", json.dumps([{"v": 1}, {"v": 2}]).encode()), "int": ("application/json", b"5"),
-          "file": ("application/octet-stream", b"\x00\x01bytes"), "x": ("text/plain", b"teapot")}
-EXPECT_PARSED = {"model": "model:Out", "text": "text", "none": "None", "list": "list:model:Out", "int": "int", "file": "file", "None": "None"}
+          "file": ("application/octet-stream", b"\x00\x01bytes"), "x": ("text/plain", b"teapot"), "t0int": ("application/json", b"5")}
+EXPECT_PARSED = {"model": "model:Out", "text": "text", "none": "None", "list": "list:model:Out", "int": "int", "file": "file", "None": "None", "t0int": "None"}
 
 
 def body_spec(b: str):
@@ -46,7 +46,9 @@ def resp_spec(r: dict) -> dict:
     content = {"model": {"application/json": out}, "text": {"text/plain": {"schema": S}}, "none": None,
                "list": {"application/problem+json": {"schema": {"type": "array", "items": {"$ref": "#/components/schemas/Out"}}}},
                "int": {"application/json": {"schema": {"type": "integer"}}},
-               "file": {"application/octet-stream": {"schema": {"type": "string", "format": "binary"}}}}[how]
+               "file": {"application/octet-stream": {"schema": {"type": "string", "format": "binary"}}},
+               # a media type listed without a schema (only an example) before one that has a schema
+               "t0int": {"text/plain": {"example": "5"}, "application/json": {"schema": {"type": "integer"}}}}[how]
     return {"description": "d", **({"content": content} if content else {})}
 
 
